@@ -23,7 +23,7 @@ From Coq Require Import ZArith List Bool Permutation.
 From DV Require Import Model.PyPrims Model.Tree Model.C07Model Model.C07Spec Proofs.C07Thms.
 From DV Require Model.Heap Model.HeapOps Model.C03Spec Proofs.C03Base Proofs.C03Reseed.
 From DV Require Proofs.C07Link Proofs.C07LinkOps Proofs.C07LinkEdge Proofs.C07LinkOrder Proofs.C07LinkEx
-     Proofs.C07Seed Proofs.C07LinkMid Proofs.C07LinkRot Proofs.C07LinkGen Proofs.C07LinkGen2 Proofs.C07LinkEx2.
+     Proofs.C07Seed Proofs.C07LinkMid Proofs.C07LinkRot Proofs.C07LinkGen Proofs.C07LinkGen2 Proofs.C07LinkEx2 Proofs.C07LinkOutgroup.
 From DV Require Gen.Mutators Model.C03GenInst Proofs.C03GenOrder.
 Import ListNotations.
 Open Scope Z_scope.
@@ -227,13 +227,24 @@ Theorem reroot_at_edge_position :
 Proof. exact edge_position_l. Qed.
 Print Assumptions reroot_at_edge_position.
 
-(* to_outgroup_position: the outgroup node is the first child of the root (any tree) *)
+(* to_outgroup_position: the outgroup node is the first child of the root (any tree) - without unifurcation
+   suppression; with it (the current source, repair 1c81f78b, suppresses AFTER the outgroup is in place) an
+   outgroup that is itself a unifurcation is merged into its child, which is then the first child: next theorem *)
 Theorem outgroup_first_child :
-  forall t r og upd supp t' r',
-  to_outgroup t r og upd supp = Ok (t', r') ->
+  forall t r og upd t' r',
+  to_outgroup t r og upd false = Ok (t', r') ->
   exists k rest, t_kids t' = k :: rest /\ t_id k = og.
 Proof. exact outgroup_first_l. Qed.
 Print Assumptions outgroup_first_child.
+
+(* (((A:1)og:2,B:2)p:3,C:1) with suppression: og is merged into A (length 1+2), A is the first child *)
+Theorem outgroup_first_child_suppressed_example :
+  to_outgroup (T 0 None None None [T 1 None None (Some 3) [T 2 None None (Some 2) [T 3 (Some 10) None (Some 1) []];
+                                                           T 4 (Some 11) None (Some 2) []];
+                                   T 5 (Some 12) None (Some 1) []]) None 2 false true
+  = Ok (T 1 None None None [T 3 (Some 10) None (Some 3) []; T 4 (Some 11) None (Some 2) []; T 5 (Some 12) None (Some 4) []], None).
+Proof. exact Proofs.C07LinkOutgroup.outgroup_suppressed_example. Qed.
+Print Assumptions outgroup_first_child_suppressed_example.
 
 (* ============ 5. the rooting flag ============ *)
 (* soft operations (reseed_at, to_outgroup_position, ladderize, reorder, randomly_rotate,
@@ -439,8 +450,8 @@ Theorem heap_reroot_at_edge_preserves :
 Proof. exact Proofs.C07LinkEdge.heap_reroot_at_edge_l. Qed.
 Print Assumptions heap_reroot_at_edge_preserves.
 
-(* to_outgroup_position with suppress_unifurcations=False (the case C03 proves; with True the
-   library can leave an ill-formed structure, see C03) *)
+(* to_outgroup_position in its form BEFORE repair 1c81f78b, suppress_unifurcations=False (with True that
+   form could leave an ill-formed structure, see C03) - with the model's result and the first-child clause *)
 Theorem heap_to_outgroup_position_preserves :
   forall ub h t og,
   C03Base.WF h -> Heap.abs h = Some t -> In og (ids t) -> og <> t_id t ->
@@ -454,6 +465,21 @@ Theorem heap_to_outgroup_position_preserves :
     /\ (forall a b, dist a b t' = dist a b t).
 Proof. exact Proofs.C07LinkEdge.heap_to_outgroup_l. Qed.
 Print Assumptions heap_to_outgroup_position_preserves.
+
+(* to_outgroup_position as it is NOW (repair 1c81f78b, HeapOps.to_outgroup_position_r: the outgroup goes to the
+   front of its parent's child list, then reseed_at at that parent): every non-seed outgroup node, BOTH values
+   of suppress_unifurcations - the former exclusion is gone *)
+Theorem heap_to_outgroup_position_repaired_preserves :
+  forall ub su h t og,
+  C03Base.WF h -> Heap.abs h = Some t -> In og (ids t) -> og <> t_id t ->
+  (2 <= length (t_kids t))%nat -> NoDup (leaf_taxa t) ->
+  exists h' t', HeapOps.to_outgroup_position_r og ub su h = Heap.HOk h' /\ C03Base.WF h' /\ Heap.abs h' = Some t'
+    /\ Permutation (leaf_taxa t) (leaf_taxa t')
+    /\ (forall S, is_usplit t S <-> is_usplit t' S)
+    /\ total_length t' = total_length t
+    /\ (forall a b, dist a b t' = dist a b t).
+Proof. exact Proofs.C07LinkOutgroup.heap_to_outgroup_r_l. Qed.
+Print Assumptions heap_to_outgroup_position_repaired_preserves.
 
 Theorem heap_suppress_unifurcations_preserves :
   forall h t,
@@ -556,9 +582,9 @@ Theorem heap_randomly_rotate_preserves :
 Proof. exact Proofs.C07LinkRot.heap_randomly_rotate_l. Qed.
 Print Assumptions heap_randomly_rotate_preserves.
 
-(* randomly_reorient when the sampled node is internal (for a sampled LEAF the library calls
-   to_outgroup_position with unifurcation suppression, for which C03 has refutations, not a
-   refinement) *)
+(* randomly_reorient in its form before repair 1c81f78b, when the sampled node is internal (for a sampled
+   LEAF that form called the old to_outgroup_position with unifurcation suppression, for which C03 has
+   refutations) *)
 Theorem heap_randomly_reorient_preserves :
   forall pick perms ub h t nd,
   C03Base.WF h -> Heap.abs h = Some t -> nth_error (Heap.pre_ids t) pick = Some nd -> is_internal_node nd t ->
@@ -572,6 +598,24 @@ Theorem heap_randomly_reorient_preserves :
     /\ (forall a b, dist a b t' = dist a b t).
 Proof. exact Proofs.C07LinkRot.heap_randomly_reorient_l. Qed.
 Print Assumptions heap_randomly_reorient_preserves.
+
+(* randomly_reorient as it is NOW (with the repaired to_outgroup_position): ANY sampled node but the seed,
+   internal or leaf *)
+Theorem heap_randomly_reorient_repaired_preserves :
+  forall pick perms ub h t nd,
+  C03Base.WF h -> Heap.abs h = Some t -> nth_error (Heap.pre_ids t) pick = Some nd -> nd <> t_id t ->
+  (2 <= length (t_kids t))%nat -> NoDup (leaf_taxa t) ->
+  (forall h1 t1,
+     (if Heap.is_internal h nd then HeapOps.reseed_at nd ub true true h
+      else HeapOps.to_outgroup_position_r nd ub true h) = Heap.HOk h1 ->
+     Heap.abs h1 = Some t1 -> Proofs.C07LinkRot.perms_ok (Proofs.C07LinkRot.rotate_nodes h1 t1) perms h1) ->
+  exists h' t', HeapOps.randomly_reorient_r pick perms ub h = Heap.HOk h' /\ C03Base.WF h' /\ Heap.abs h' = Some t'
+    /\ Permutation (leaf_taxa t) (leaf_taxa t')
+    /\ (forall S, is_usplit t S <-> is_usplit t' S)
+    /\ total_length t' = total_length t
+    /\ (forall a b, dist a b t' = dist a b t).
+Proof. exact Proofs.C07LinkOutgroup.heap_randomly_reorient_r_l. Qed.
+Print Assumptions heap_randomly_reorient_repaired_preserves.
 
 (* non-vacuity: a script satisfying perms_ok on the heap of ex_t, and a heap-level midpoint rooting *)
 Theorem nonvacuous_heap_randomly_rotate :
@@ -623,17 +667,16 @@ Proof. exact Proofs.C07LinkGen.gen_reroot_at_edge_l. Qed.
 Print Assumptions generated_reroot_at_edge_preserves.
 
 Theorem generated_to_outgroup_position_preserves :
-  forall ub h t og,
+  forall ub su h t og,
   C03Base.WF h -> Heap.abs h = Some t -> In og (ids t) -> og <> t_id t ->
   (2 <= length (t_kids t))%nat -> NoDup (leaf_taxa t) ->
-  exists h' t', C03GenInst.to_hres (Mutators.Tree_to_outgroup_position C03GenInst.HG og ub false h) = Heap.HOk h'
+  exists h' t', C03GenInst.to_hres (Mutators.Tree_to_outgroup_position C03GenInst.HG og ub su h) = Heap.HOk h'
     /\ C03Base.WF h' /\ Heap.abs h' = Some t'
-    /\ (exists k rest, t_kids t' = k :: rest /\ t_id k = og)
     /\ Permutation (leaf_taxa t) (leaf_taxa t')
     /\ (forall S, is_usplit t S <-> is_usplit t' S)
     /\ total_length t' = total_length t
     /\ (forall a b, dist a b t' = dist a b t).
-Proof. exact Proofs.C07LinkGen.gen_to_outgroup_l. Qed.
+Proof. exact Proofs.C07LinkOutgroup.gen_to_outgroup_r_l. Qed.
 Print Assumptions generated_to_outgroup_position_preserves.
 
 Theorem generated_reseed_at_preserves :
@@ -693,17 +736,19 @@ Print Assumptions generated_randomly_rotate_preserves.
 
 Theorem generated_randomly_reorient_preserves :
   forall pick perms ub h t nd,
-  C03Base.WF h -> Heap.abs h = Some t -> nth_error (Heap.pre_ids t) pick = Some nd -> is_internal_node nd t ->
+  C03Base.WF h -> Heap.abs h = Some t -> nth_error (Heap.pre_ids t) pick = Some nd -> nd <> t_id t ->
   (2 <= length (t_kids t))%nat -> NoDup (leaf_taxa t) ->
-  (forall h1 t1, HeapOps.reseed_at nd ub true true h = Heap.HOk h1 -> Heap.abs h1 = Some t1 ->
-                 Proofs.C07LinkRot.perms_ok (Proofs.C07LinkRot.rotate_nodes h1 t1) perms h1) ->
+  (forall h1 t1,
+     (if Heap.is_internal h nd then HeapOps.reseed_at nd ub true true h
+      else HeapOps.to_outgroup_position_r nd ub true h) = Heap.HOk h1 ->
+     Heap.abs h1 = Some t1 -> Proofs.C07LinkRot.perms_ok (Proofs.C07LinkRot.rotate_nodes h1 t1) perms h1) ->
   exists h' t', C03GenInst.to_hres (Mutators.Tree_randomly_reorient C03GenInst.HG ([pick] :: perms) ub h) = Heap.HOk h'
     /\ C03Base.WF h' /\ Heap.abs h' = Some t'
     /\ Permutation (leaf_taxa t) (leaf_taxa t')
     /\ (forall S, is_usplit t S <-> is_usplit t' S)
     /\ total_length t' = total_length t
     /\ (forall a b, dist a b t' = dist a b t).
-Proof. exact Proofs.C07LinkGen.gen_randomly_reorient_l. Qed.
+Proof. exact Proofs.C07LinkOutgroup.gen_randomly_reorient_r_l. Qed.
 Print Assumptions generated_randomly_reorient_preserves.
 
 (* generated ladderize / reorder (reorder with its default key, label ranks as in HeapOps.v) *)
